@@ -487,7 +487,7 @@ theorem repeat_spec {α} (a : DimArray α) (hw : a.WF) (newax : Axis) (hpl : new
 with the single label `None` is inserted at `pos`, the other axes stay (whole, in order); the
 elements are the same, addressed by the old names (both ways).  A name already present: `ValueError`. -/
 theorem newaxis_spec {α} (a : DimArray α) (hw : a.WF) (name : String) (hne : name ≠ "") (pos : Int) (p : Nat)
-    (hp : p ≤ a.ndim) (hpos : pos = (p : Int) ∨ (pos = -1 ∧ p = a.ndim)) :
+    (hp : p ≤ a.ndim) (hpos : pos = (p : Int) ∨ (pos < 0 ∧ pos + (a.ndim : Int) + 1 = (p : Int))) :
     (name ∉ a.dims →
       ∃ r, newaxis a name pos none = .ok r ∧ r.axes = a.axes.insertIdx p (noneAxis name) ∧
         r.WF ∧ r.attrs = a.attrs ∧ r.vkind = a.vkind ∧
@@ -506,7 +506,7 @@ replicated along it: every element of the result is the element of `a` at the sa
 along `a`'s dimensions, whatever the position along the new dimension. -/
 theorem newaxis_values_spec {α} (a : DimArray α) (hw : a.WF) (name : String) (hne : name ≠ "") (pos : Int) (p : Nat)
     (v : Axis) (hpl : v.members = [])
-    (hp : p ≤ a.ndim) (hpos : pos = (p : Int) ∨ (pos = -1 ∧ p = a.ndim)) (hnew : name ∉ a.dims) :
+    (hp : p ≤ a.ndim) (hpos : pos = (p : Int) ∨ (pos < 0 ∧ pos + (a.ndim : Int) + 1 = (p : Int))) (hnew : name ∉ a.dims) :
     ∃ r, newaxis a name pos (some v) = .ok r ∧ r.axes = a.axes.insertIdx p { v with name := name } ∧
       r.WF ∧ r.attrs = a.attrs ∧ r.vkind = a.vkind ∧
       SameOn a.dims a r ∧ (v.labels ≠ [] → SameOn a.dims r a) := by
@@ -705,7 +705,12 @@ example : ∃ r, newaxis exC10 "t" 1 none = .ok r ∧ r.axes = exC10.axes.insert
   exact ⟨r, h1, h2⟩
 
 example : ∃ r, newaxis exC10 "t" (-1) none = .ok r ∧ r.axes = exC10.axes.insertIdx 3 (noneAxis "t") := by
-  obtain ⟨r, h1, h2, _⟩ := (newaxis_spec exC10 exC10_wf "t" (by decide) (-1) 3 (by decide) (Or.inr ⟨rfl, rfl⟩)).1 (by decide)
+  obtain ⟨r, h1, h2, _⟩ := (newaxis_spec exC10 exC10_wf "t" (by decide) (-1) 3 (by decide) (Or.inr ⟨by decide, by decide⟩)).1 (by decide)
+  exact ⟨r, h1, h2⟩
+
+/-- a negative position counts from the end of the result's dimensions: -2 inserts before the last one -/
+example : ∃ r, newaxis exC10 "t" (-2) none = .ok r ∧ r.axes = exC10.axes.insertIdx 2 (noneAxis "t") := by
+  obtain ⟨r, h1, h2, _⟩ := (newaxis_spec exC10 exC10_wf "t" (by decide) (-2) 2 (by decide) (Or.inr ⟨by decide, by decide⟩)).1 (by decide)
   exact ⟨r, h1, h2⟩
 
 /-- broadcast onto (w, y, z, x): `w` is new, `z` is repeated (1 label in `exC10`, 2 in the target),
